@@ -218,7 +218,7 @@ package scan
 //@   ensures[C18] error-means-no-batch: result1 != nil ==> isnil(result0)
 //@   ensures[C07,C18] ended-iff-past-maxt: result1 == nil ==> (isnil(result0) <==> old(o.currentStep) > o.maxt)
 //@   ensures[C07,C18] batch-size: result1 == nil && !isnil(result0) ==> 1 <= len(result0) && len(result0) <= o.numSteps
-//@   ensures[C02,C07,C18] one-vector-per-step: result1 == nil && !isnil(result0) ==> forall k in 0..len(result0) ::
+//@   ensures[C02,C07,C11,C18] one-vector-per-step: result1 == nil && !isnil(result0) ==> forall k in 0..len(result0) ::
 //@       result0[k].T == old(o.currentStep) + k*old(o.step)
 //@   ensures[C07,C18,C19] within-window: result1 == nil && !isnil(result0) ==> forall k in 0..len(result0) :: result0[k].T <= o.maxt
 //@   ensures[C07,C18] batch-is-maximal: result1 == nil && !isnil(result0) ==>
@@ -327,7 +327,7 @@ package scan
 //@   ensures[C18] error-means-no-batch: result1 != nil ==> isnil(result0)
 //@   ensures[C07,C18] ended-iff-past-maxt: result1 == nil ==> (isnil(result0) <==> old(o.currentStep) > o.maxt)
 //@   ensures[C07,C18] batch-size: result1 == nil && !isnil(result0) ==> 1 <= len(result0) && len(result0) <= o.numSteps
-//@   ensures[C03,C07,C18,C19] one-vector-per-step-within-the-window: result1 == nil && !isnil(result0) ==> forall k in 0..len(result0) ::
+//@   ensures[C03,C07,C11,C18,C19] one-vector-per-step-within-the-window: result1 == nil && !isnil(result0) ==> forall k in 0..len(result0) ::
 //@       result0[k].T == old(o.currentStep) + k*old(o.step) && result0[k].T <= o.maxt
 //@   ensures[C07,C18] batch-is-maximal: result1 == nil && !isnil(result0) ==>
 //@       len(result0) == o.numSteps || old(o.currentStep) + len(result0)*old(o.step) > o.maxt
